@@ -548,6 +548,34 @@ func ctxFromWithOperationContext(v ssa.Value, at ssa.Instruction, depth int, see
 		return len(x.Edges) > 0
 	case *ssa.UnOp:
 		if x.Op == token.MUL {
+			// a variable captured by a function literal: what the enclosing function stored into it before the literal was made
+			if fv, ok := x.X.(*ssa.FreeVar); ok {
+				cl := fv.Parent()
+				idx := -1
+				for i, f := range cl.FreeVars {
+					if f == fv {
+						idx = i
+					}
+				}
+				if par := cl.Parent(); par != nil && idx >= 0 {
+					for _, b := range par.Blocks {
+						for _, in := range b.Instrs {
+							mc, ok := in.(*ssa.MakeClosure)
+							if !ok || mc.Fn != ssa.Value(cl) || idx >= len(mc.Bindings) {
+								continue
+							}
+							any := false
+							for _, st := range an.CellStores(mc.Bindings[idx]) {
+								if st.Parent() == par && an.CanReach(st, mc) && ctxFromWithOperationContext(st.Val, mc, depth+1, seen) {
+									any = true
+								}
+							}
+							return any
+						}
+					}
+				}
+				return false
+			}
 			any := false
 			for _, st := range an.CellStores(x.X) {
 				if an.CanReach(st, at) && ctxFromWithOperationContext(st.Val, at, depth+1, seen) {
